@@ -10,7 +10,8 @@ REPLAYERS = {"mu_replay": ["MuModel", "MuReplay"], "sem_replay": ["SemModel", "S
 
 
 def build_replayer(name="mu_replay"):
-    """Extract the models (as regenerated for this tree) and compile replay/<name>.ml.  Returns (exe, err)."""
+    """Extract the models (as regenerated for this tree) and compile replay/<name>.ml in its own directory.  Returns (exe, err)."""
+    dest = os.path.join(COQ, "_extract_" + name)
     with Lock("coq"):
         b = coq_build(["Model/MuReplay.vo", "Model/SemReplay.vo", "Model/OnceReplay.vo"])
         if not b["ok"]:
@@ -22,16 +23,19 @@ def build_replayer(name="mu_replay"):
                           cwd=COQ, timeout=300)
         if rc != 0:
             return None, "extraction failed: " + (err or out)[-800:]
-        shutil.copy(os.path.join(VERIF, "replay", name + ".ml"), EXTRACT)
-        shutil.copy(os.path.join(VERIF, "replay", "rcommon.ml"), EXTRACT)
-        files = []
-        for m in ML_BASE + REPLAYERS[name]:
-            files += [m + ".ml"] if m == "rcommon" else [m + ".mli", m + ".ml"]
-        rc, out, err = sh(["ocamlfind", "ocamlopt", "-package", "str", "-linkpkg", "-w", "-a"] + files +
-                          [name + ".ml", "-o", name], cwd=EXTRACT, timeout=300)
-        if rc != 0:
-            return None, "replayer does not compile: " + (err or out)[-800:]
-        return os.path.join(EXTRACT, name), None
+        if os.path.isdir(dest):
+            shutil.rmtree(dest)
+        shutil.copytree(EXTRACT, dest)
+    shutil.copy(os.path.join(VERIF, "replay", name + ".ml"), dest)
+    shutil.copy(os.path.join(VERIF, "replay", "rcommon.ml"), dest)
+    files = []
+    for m in ML_BASE + REPLAYERS[name]:
+        files += [m + ".ml"] if m == "rcommon" else [m + ".mli", m + ".ml"]
+    rc, out, err = sh(["ocamlfind", "ocamlopt", "-package", "str", "-linkpkg", "-w", "-a"] + files +
+                      [name + ".ml", "-o", name], cwd=dest, timeout=300)
+    if rc != 0:
+        return None, "replayer does not compile: " + (err or out)[-800:]
+    return os.path.join(dest, name), None
 
 
 def replay_one(replayer, exe, seed, env_extra, tdir):
